@@ -2,7 +2,7 @@
 from .. import core, scope, gen, drive
 from .common import *
 
-FMTS = ("list", "array", "dict", "valueof")
+FMTS = ("list", "array", "narrowarray", "dict", "valueof")
 
 
 def part_calls(g, rng, q):
